@@ -56,6 +56,11 @@ ASSUMPTIONS = [
     'option values None (unset) are not written by the format: generated components never override a non-empty default '
     'with None; variables are compared by their text (the format stores text)',
     'instance dumps fold global variables into every stage: variables are compared per component after resolution',
+    'an option is expressible in the format when the writers emit it or the reader has an ini key for it; the translation tables '
+    'are measured with one option at a time, that the options of a group do not depend on each other is checked by the '
+    'correspondence on the subsets of every group (stream G) against the per-option model',
+    'stage indices spelled as text (stage10, STAGE10): int() is modelled for decimal digits (coq/Dosini/Stages.v); a sign, blanks or '
+    '_ separators after the word stage are not generated',
 ]
 HEADER = 'Require Import V.Lib.JTree V.Dosini.Codec V.Dosini.Generated V.Dosini.Text V.Dosini.Model.\nOpen Scope string_scope.'
 
